@@ -655,3 +655,38 @@ impl Modelled for EBoth {
 		}
 	}
 }
+
+/// user-defined wrapper relying on the DEFAULT `WrapperTypeDecode::decode_wrapped`
+/// (descend, decode the wrapped type, convert, ascend) and on `WrapperTypeEncode`
+#[derive(Debug, PartialEq)]
+pub struct WrapDefault(pub Vec<u16>);
+impl From<Vec<u16>> for WrapDefault {
+	fn from(v: Vec<u16>) -> Self {
+		WrapDefault(v)
+	}
+}
+impl core::ops::Deref for WrapDefault {
+	type Target = Vec<u16>;
+	fn deref(&self) -> &Vec<u16> {
+		&self.0
+	}
+}
+impl parity_scale_codec::WrapperTypeEncode for WrapDefault {}
+impl parity_scale_codec::WrapperTypeDecode for WrapDefault {
+	type Wrapped = Vec<u16>;
+}
+impl DecodeWithMemTracking for WrapDefault {}
+impl Modelled for WrapDefault {
+	fn ty() -> Ty {
+		Ty::ptr(<Vec<u16>>::ty(), PtrKind::Box)
+	}
+	fn to_val(&self) -> Val {
+		self.0.to_val()
+	}
+	fn from_val(v: &Val) -> Self {
+		WrapDefault(Vec::from_val(v))
+	}
+	fn heap(&self, acc: &mut Heap) {
+		self.0.heap(acc)
+	}
+}
